@@ -2,7 +2,7 @@
 GL_ALL = ('contracts.grouped_list', None)
 
 FCM = ('contracts.qualitative', None)
-ENUM = ('contracts.base_carver', ['combinations_at_index', 'consecutive_combinations', 'consecutive_combinations@top', 'nan_combinations'])
+ENUM = ('contracts.base_carver', ['combinations_at_index', 'consecutive_combinations', 'consecutive_combinations@top', 'nan_combinations', 'order_apply_combination'])
 
 REGISTRY = {
  'C01': dict(level='other', P=[ENUM], R=['rtc.c01_carver'],
@@ -33,15 +33,15 @@ REGISTRY = {
  'C07': dict(level='other', P=[], R=['rtc.battery_C07'],
              explanation='BOUNDED: fit_transform == fit;transform, row-wise purity (subset, permutation, three re-indexings), repeatability, fitted state unchanged by transform, index/columns '
                          'kept, non-feature columns untouched, caller data unmodified with copy=True.'),
- 'C08': dict(level='other', P=[GL_ALL], R=['rtc.battery_C08', 'rtc.c09_base'],
-             explanation='PROVED: every GroupedList operation preserves the ordered-partition invariant (so any values_orders entry built through them is well formed). BOUNDED: fit completes or '
+ 'C08': dict(level='other', P=[GL_ALL, ('contracts.base_discretizers', None)], R=['rtc.battery_C08', 'rtc.c09_base'],
+             explanation='PROVED: every GroupedList operation preserves the ordered-partition invariant (so any values_orders entry built through them is well formed); the four _remove_feature methods remove the feature from every per-feature attribute and every casting list, leave all other entries unchanged and preserve the coherence invariant COH. BOUNDED: fit completes or '
                          'raises AssertionError; afterwards all per-feature attributes have exactly the kept features as keys, orders are well formed and cover every training value, dropped '
                          'features pass through transform, summary/history do not raise.'),
  'C16': dict(level='other', P=[], R=['rtc.battery_C16'],
              explanation='BOUNDED: summary lists exactly the kept features; qualitative rows partition the known values with the label transform outputs; one row per quantitative group with NaN '
                          'in the group it was merged into; summary(f) only rows of f; history holds raw distribution + tested combinations with measure, last viable one = fitted grouping.'),
- 'C17': dict(level='other', P=[GL_ALL], R=['rtc.c17_edits'],
-             explanation='PROVED: the GroupedList operations update_discretizer is built from (group, append, contains, get_group, replace_group_leader) meet their contracts for all inputs. '
+ 'C17': dict(level='other', P=[GL_ALL, ('contracts.update_discretizer', None)], R=['rtc.c17_edits'],
+             explanation='PROVED: update_discretizer (mode group) against the GroupedList contracts: the edited order stays a well-formed partition, the members of the discarded group end under the kept leader, all other groups and all other features are unchanged, no value is lost, features_dropna is set when missing values are grouped, AssertionError exactly for a NaN kept value or non-leader arguments; and the GroupedList operations themselves. '
                          'BOUNDED: seeded sequences of valid edits on fitted objects; after every edit transform maps the discarded rows to the kept label and leaves all other rows grouped as '
                          'before (replace renames only), and labels / summary / JSON round trip agree with transform.'),
  'C09': dict(level='other', P=[FCM], R=['rtc.c09_base'],
